@@ -719,7 +719,8 @@ class Gen:
             n = r.randint(2, 4)
             items = [self.prog(depth + 1, small=True) for _ in range(n)]
             # `a | ! b` and `a | time b` are syntax errors: only the first element may carry a prefix
-            items = [it if (i == 0 or not isinstance(it, Prefix)) else Group(it, "brace") for i, it in enumerate(items)]
+            # … and a list as a pipeline element must be grouped (`a | b || c` is `(a | b) || c`)
+            items = [Group(it, "brace") if (isinstance(it, Seq) or (i > 0 and isinstance(it, Prefix))) else it for i, it in enumerate(items)]
             ops = [("|&" if (self.pipe_both and r.chance(0.05)) else "|") for _ in range(n - 1)]
             return Pipe(items, ops)
         if k < 0.46:
